@@ -194,21 +194,25 @@ theorem inv3_step (s : St) (a : Act) (s' : St) (i1 : Inv1 s) (i2 : Inv2 s) (hi :
     split at h
     · split at h
       · split at h
+        · cases h; exact ⟨h1, h2, h3, h4, h6, h5⟩
+        · split at h
+          · cases h
+          · cases h
+            refine ⟨?_, ?_, ?_, h4, h6, h5⟩
+            · intro p hp; simp only [List.mem_append, List.mem_singleton] at hp
+              cases hp with
+              | inl hp => exact h1 p hp
+              | inr hp => subst hp; exact Nat.le_refl _
+            · intro x hx; simp only [List.mem_append, List.mem_singleton] at hx
+              cases hx with
+              | inl hx => obtain ⟨tf, htf⟩ := h2 x hx; exact ⟨tf, List.mem_append_left _ htf⟩
+              | inr hx => subst hx; exact ⟨s.now, by simp⟩
+            · intro j hj hd d' ho
+              obtain ⟨t0, sl, tf, a1, a2, a3, a4⟩ := h3 j hj hd d' ho
+              exact ⟨t0, sl, tf, a1, a2, List.mem_append_left _ a3, a4⟩
+      · split at h
         · cases h
-        · cases h
-          refine ⟨?_, ?_, ?_, h4, h6, h5⟩
-          · intro p hp; simp only [List.mem_append, List.mem_singleton] at hp
-            cases hp with
-            | inl hp => exact h1 p hp
-            | inr hp => subst hp; exact Nat.le_refl _
-          · intro x hx; simp only [List.mem_append, List.mem_singleton] at hx
-            cases hx with
-            | inl hx => obtain ⟨tf, htf⟩ := h2 x hx; exact ⟨tf, List.mem_append_left _ htf⟩
-            | inr hx => subst hx; exact ⟨s.now, by simp⟩
-          · intro j hj hd d' ho
-            obtain ⟨t0, sl, tf, a1, a2, a3, a4⟩ := h3 j hj hd d' ho
-            exact ⟨t0, sl, tf, a1, a2, List.mem_append_left _ a3, a4⟩
-      · cases h; exact ⟨h1, h2, h3, h4, h6, h5⟩
+        · cases h; exact ⟨h1, h2, h3, h4, h6, h5⟩
     · cases h
   | cancelEnd f =>
     simp only [step] at h
